@@ -9,7 +9,8 @@ RULE = ("fine/coarse level pairs built by the repository's coarsening from rando
 
 
 def run(ctx):
-    ctx.prove()
+    # C08b: adjointness and convexity for the pairs of the hierarchy setup() builds (Build.pairOf), positivity only on the index range
+    ctx.prove(extra_modules=["GMGProofs.Props.C08b"])
     h = ctx.build_harness("h_ops")
     if ctx.tier == "quick":
         ctx.pipe([h, "transfer", "60", "17", "32"], "transfer")
